@@ -78,6 +78,51 @@ func mkAlphabet(elems []string, pathLen, patLen int) *alphabet {
 	return a
 }
 
+// mkExplicit builds an alphabet from explicit leaf paths and patterns (deep
+// sibling leaves: slice capacity growth makes depths 4 and 6 special).
+func mkExplicit(paths, patterns []string) *alphabet {
+	a := &alphabet{}
+	sp := func(s string) []string {
+		if s == "" {
+			return []string{}
+		}
+		return strings.Split(s, "/")
+	}
+	for _, p := range paths {
+		a.paths = append(a.paths, sp(p))
+	}
+	for _, q := range patterns {
+		a.patterns = append(a.patterns, sp(q))
+	}
+	// every proper prefix of a leaf path is a node path worth observing
+	seen := map[string]bool{}
+	for _, p := range a.paths {
+		seen[strings.Join(p, "/")] = true
+	}
+	for _, p := range append([][]string{}, a.paths...) {
+		for i := 0; i < len(p); i++ {
+			k := strings.Join(p[:i], "/")
+			if !seen[k] {
+				seen[k] = true
+				a.paths = append(a.paths, append([]string{}, p[:i]...))
+			}
+		}
+	}
+	for _, p := range a.paths[:len(paths)] {
+		for _, v := range []string{"v1", "v2"} {
+			a.ops = append(a.ops, opT{"add", p, v})
+		}
+		a.ops = append(a.ops, opT{"upd", p, "v2"})
+	}
+	for _, q := range a.patterns {
+		a.ops = append(a.ops, opT{"del", q, ""}, opT{"delc", q, "v1"}, opT{"walkdel", q, "v2"})
+	}
+	for _, o := range a.ops {
+		a.names = append(a.names, o.String())
+	}
+	return a
+}
+
 const sep = "/"
 
 func key(p []string) string { return strings.Join(p, sep) }
@@ -391,6 +436,15 @@ func lexLess(a, b []string) bool {
 	return len(a) < len(b)
 }
 
+func deepSpecOf() seqmc.Spec {
+	deep := mkExplicit(
+		[]string{"a/a/a/a", "a/a/a/b", "a/a/b", "b", "a/a/a/c/a/a", "a/a/a/c/a/b", "a/a/a/c/a/c", "a/a/a/c/b"},
+		[]string{"", "a", "a/a", "a/a/a", "a/a/a/*", "a/*/*/*", "*", "a/a/a/c", "a/a/a/c/a", "a/a/a/c/*/*", "a/a/a/c/a/*", "b", "a/a/b", "a/a/a/a", "a/a/a/c/a/b", "*/*/*/*/*/*", "a/a/*/c", "a/a/a/c/*"})
+	return seqmc.Spec{Name: "deep sibling leaves (depths 3,4,5,6) (closure)", Ops: deep.names, Depth: 20, New: func() seqmc.Sys {
+		return &sys{a: deep, t: &ctree.Tree{}, m: map[string]string{}}
+	}}
+}
+
 type harness struct{}
 
 func (harness) Property() string { return "C09" }
@@ -405,11 +459,18 @@ func (harness) Specs(tier string) []seqmc.Spec {
 	ab := []string{"a", "b"}
 	if tier == "thorough" {
 		return []seqmc.Spec{
+			deepSpecOf(),
 			mk("{a,b} paths<=3 patterns<=4 (closure)", ab, 3, 4, 16),
 			mk("{a,b,c} paths<=2 patterns<=3 (closure)", []string{"a", "b", "c"}, 2, 3, 16),
 		}
 	}
-	return []seqmc.Spec{mk("{a,b} paths<=3 patterns<=3 (closure)", ab, 3, 3, 16)}
+	deep := mkExplicit(
+		[]string{"a/a/a/a", "a/a/a/b", "a/a/b", "b", "a/a/a/c/a/a", "a/a/a/c/a/b"},
+		[]string{"", "a", "a/a", "a/a/a", "a/a/a/*", "a/*/*/*", "*", "a/a/a/c", "a/a/a/c/a", "a/a/a/c/*/*", "a/a/a/c/a/*", "b", "a/a/b", "a/a/a/a", "a/a/a/c/a/b", "*/*/*/*/*/*", "a/a/*/c"})
+	deepSpec := seqmc.Spec{Name: "deep sibling leaves (depths 3,4,6) (closure)", Ops: deep.names, Depth: 16, New: func() seqmc.Sys {
+		return &sys{a: deep, t: &ctree.Tree{}, m: map[string]string{}}
+	}}
+	return []seqmc.Spec{mk("{a,b} paths<=3 patterns<=3 (closure)", ab, 3, 3, 16), deepSpec}
 }
 
 func main() { seqmc.Main(harness{}) }
